@@ -2,6 +2,7 @@ import Tbx.Proofs.FlowTheory
 import Tbx.Proofs.FlowSweep
 import Tbx.Proofs.FlowCut
 import Tbx.Proofs.FlowDinicDfs
+import Tbx.Proofs.FlowSweepTotal
 import Tbx.Model.FlowDinic
 /-
 C02 — the returned node assignment is the canonical minimum cut.
@@ -131,6 +132,37 @@ theorem dinic_assignment_canonical (es : List Edge) (s t : Nat) (hnn : ∀ e, e 
       (∀ S' : Finset (Fin n), ⟨s, hs⟩ ∈ S' → ⟨t, ht⟩ ∉ S' → cutCap c A ≤ cutCap c S') ∧
       (∀ S' : Finset (Fin n), ⟨s, hs⟩ ∈ S' → ⟨t, ht⟩ ∉ S' → cutCap c S' = d'.maxFlow → A ⊆ S') :=
   Flow.dinic_assignment es s t hnn hst hN d hd fuel d' h bits hb
+
+/-- `assignment(source)` on a finished solver returns `Ok` within its fuel (each node is marked at most
+    once) -/
+theorem assignment_returns (g : Graph) (hT : TargetsOK g) (src : Nat) (hs : src < g.numNodes) :
+    ∃ r, assignmentOut g true src = .ok r :=
+  assignmentOut_total g hT src hs
+
+/-- **C02 headline, total, for the three models**: for every edge list with non-negative capacities and
+    every pair of distinct nodes s, t, each model — run with the fuel the driver passes — returns,
+    `assignment(s)` is `Ok bits` with the SAME bit vector for the three, and the set it denotes contains s,
+    excludes t, the merged input capacity leaving it equals the reported flow value, which is the maximum
+    flow; it is a minimum cut and it is contained in every minimum cut (the canonical one) -/
+theorem solvers_return_canonical_cut (es : List Edge) (s t : Nat) (hnn : ∀ e, e ∈ es → 0 ≤ e.cap)
+    (hst : s ≠ t) (hs : s < nNodes (es.map toE)) (ht : t < nNodes (es.map toE))
+    (hN : nNodes (es.map toE) + 2 < INV) :
+    ∃ (bits : Array Bool) (x : ℤ) (d d' : Dinic) (ek ff : Solver),
+      Dinic.fromEdgeList es s t = some d ∧ d.run ((es.map Edge.cap).sum.toNat + 2) = some d' ∧
+      (Solver.fromEdgeList es s t).runEK ((es.map Edge.cap).sum.toNat + 2) = some ek ∧
+      (Solver.fromEdgeList es s t).runFF ((es.map Edge.cap).sum.toNat + 2) = some ff ∧
+      d'.maxFlow? = .ok x ∧ ek.maxFlow? = .ok x ∧ ff.maxFlow? = .ok x ∧
+      d'.assignment? s = .ok bits ∧ ek.assignment? s = .ok bits ∧ ff.assignment? s = .ok bits ∧
+      bits.size = nNodes (es.map toE) ∧
+      (let n := nNodes (es.map toE)
+       let c := cF (es.map toE) n
+       let A := setOf n (fun v => gt bits v)
+       ⟨s, hs⟩ ∈ A ∧ ⟨t, ht⟩ ∉ A ∧ cutCap c A = x ∧ IsMaxFlowValue c ⟨s, hs⟩ ⟨t, ht⟩ x ∧
+       (∀ S' : Finset (Fin n), ⟨s, hs⟩ ∈ S' → ⟨t, ht⟩ ∉ S' → cutCap c A ≤ cutCap c S') ∧
+       (∀ S' : Finset (Fin n), ⟨s, hs⟩ ∈ S' → ⟨t, ht⟩ ∉ S' → cutCap c S' = x → A ⊆ S')) :=
+  Flow.solvers_return_canonical_cut es s t hnn hst hs ht hN
+
+example : nNodes (d1Edges.map toE) = 5 ∧ (∀ e, e ∈ d1Edges → 0 ≤ e.cap) := by decide
 
 /-- **the judge's check is sound**: if `minCutOK` accepts a solver's (residual graph, value, bit vector)
     then the value is the maximum flow, the bit vector contains s, not t, the input edges leaving it
